@@ -211,27 +211,26 @@ Definition check_obs (c : case) : list nat :=
 Definition guard_tags (c : case) : list nat :=
   let p := c_prog c in
   tag (g_no_stale_capture p) 201 ++
-  tag (g_no_alias_chain (decl_of c)) 202 ++
   tag (g_inline_ok (decl_of c)) 204 ++
   tag (g_dv_not_alias (c_outputs c) (decl_of c)) 205 ++
   tag (canon_ok (c_known c) p) 206 ++
-  tag (forallb (g_dv_single p) (c_outputs c)) 207 ++
   tag (g_no_shadowing (c_known c) p) 208 ++
-  tag (g_fixed_are_thetas (c_fixed c) (c_dists c)) 209 ++
-  (* strict validity (domain of Properties.declarative_patched_correct); amounts are not "known" there *)
+  tag (match dangling (c_fixed c) (c_dists c) with [] => true | _ => false end) 209 ++
+  (* strict validity (domain of Properties.declarative_preserves); amounts are not "known" there *)
   tag (g_valid (diffp (c_known c) (flat_map (fun st => match st with SOde a _ => a | _ => [] end) p)) p) 211.
 
-(* used only by the sensitivity self-test: the REPAIRED make_declarative against Model.declarative_patched *)
-Definition verdict_patched (c : case) : list nat :=
+(* used only by the sensitivity self-test: make_declarative with commit 0e1c190 REVERTED against
+   Model.declarative_before_fix *)
+Definition verdict_before_fix (c : case) : list nat :=
   let p := c_prog c in
-  let d := declarative_patched p in
+  let d := declarative_before_fix p in
   tag3 (res_agree (envs_of c) (if canon_ok (c_known c) d then ROk d else RValueError) (c_decl c)) 1 1001 ++
   match c_decl c with
   | OOk p' => tag (preserved (envs_of c) (normp (all_sdefs p)) p p') 11
   | OEngine => []
   | _ => if canon_ok (c_known c) p then [14] else []
   end ++
-  tag (g_no_stale_capture_patched p) 201 ++ tag (g_no_shadowing (c_known c) p) 208 ++
+  tag (g_no_stale_capture_before_fix p) 201 ++ tag (g_no_shadowing (c_known c) p) 208 ++
   tag (g_valid (diffp (c_known c) (flat_map (fun st => match st with SOde a _ => a | _ => [] end) p)) p) 211.
 
 Definition verdict (c : case) : list nat :=
@@ -250,7 +249,7 @@ Record pcase := mkP {
 Definition verdict_pair (c : pcase) : list nat :=
   if p_raised c then
     (* the refactoring refused a corpus model: which guard of the model explains it *)
-    [33] ++ tag (g_no_stale_capture (p_before c)) 201 ++ tag (g_no_alias_chain (declarative (p_before c))) 202
+    [33] ++ tag (g_no_stale_capture (p_before c)) 201 ++ tag (g_inline_ok (declarative (p_before c))) 204
   else
   let d := p_ren c in
   let outs := filter (fun x => memp (ren d x) (all_sdefs (p_after c))) (normp (all_sdefs (p_before c))) in
